@@ -31,12 +31,12 @@ Theorem C06_step_all : forall (insts : list inst) (arr : list larr),
   Forall inst_ok insts -> NoDup (map ikey insts) -> Permutation arr (all_larr insts) ->
   Permutation (lout (loop_run OutAll (arr ++ [LTerm Completed])))
               (map (fun i => ListTok (render (fst i)) (snd i)) insts).
-Proof. intros insts arr H1 H2 H3. exact (proj1 (proj2 (proj2 (loop_step_thm OutAll insts arr H1 H2 H3)))). Qed.
+Proof. exact loop_step_all. Qed.
 Theorem C06_step_last : forall (insts : list inst) (arr : list larr),
   Forall inst_ok insts -> NoDup (map ikey insts) -> Permutation arr (all_larr insts) ->
   Permutation (lout (loop_run OutLast (arr ++ [LTerm Completed])))
               (map (fun i => retag (last (snd i) (Tok "0" "null")) (render (fst i))) insts).
-Proof. intros insts arr H1 H2 H3. exact (proj1 (proj2 (proj2 (loop_step_thm OutLast insts arr H1 H2 H3)))). Qed.
+Proof. exact loop_step_last. Qed.
 
 (* ordering is by the NUMBER in the last tag component: whatever order the iterations arrived in *)
 Theorem C06_sort_canonical : forall (t : tag) es p,
@@ -63,10 +63,7 @@ Theorem C06_no_early_exit_partial : forall (pol : policy) (insts : list inst) (a
   Forall inst_ok insts -> NoDup (map ikey insts) -> Permutation arr (all_larr insts) ->
   lfinal (loop_run pol arr) = None /\
   Permutation (lout (loop_run pol arr)) (map (lexpected pol) insts).
-Proof.
-  intros pol insts arr H1 H2 H3. destruct (loop_step_thm pol insts arr H1 H2 H3) as (A & B & C & _).
-  split; [exact A|]. rewrite <- B. exact C.
-Qed.
+Proof. exact loop_no_early_exit_under_order. Qed.
 
 (* LoopCombinator: the first combination of an instance t gets t.0; the one built from the tokens of
    iteration c gets t.(c+1) -- for any state of the counters of the other instances, hence any interleaving *)
